@@ -2,7 +2,7 @@
 (* Validates event logs recorded from the real admin commands against the  *)
 (* observables and properties of AdminProps.  One trace =                  *)
 (*   [id, op, plat, any_pin, no_unlock, src, pins, upin, outfile, answers, *)
-(*    d0 : [mode, onb, echo], acc : [wipe, unlock, newpin], prev_seed,     *)
+(*    d0 : [mode, onb, echo], acc : [wipe, unlock, newpin], pre, prev_seed,*)
 (*    ev : Seq(event), outcome, fin_pin (the PIN the device ends up with), *)
 (*    files : [txt, json], expect : Seq([path, c, u])]                     *)
 (* The trace record itself plays the role of the inputs `C`.  The safety   *)
@@ -27,6 +27,7 @@ End == /\ bad = "" /\ l = Len(T.ev) + 1
        /\ bad' = FirstFail(<<
                    <<"PinPolicy", PinHeldP(T, obs, T.fin_pin)>>,
                    <<"Carried", CarriedP(T, obs, T.outcome)>>,
+                   <<"WriteError", WriteErrorP(T, T.outcome)>>,
                    <<"PubkeysWritten", PubkeysWrittenP(T, T.outcome, T.files, T.expect)>> >>)
        /\ l' = l + 1 /\ UNCHANGED <<tid, obs>>
 
